@@ -9,6 +9,14 @@
      InterfaceInner::next_ipv4_frag_ident   one ident per dispatch_ip call, wrapping u16
    (src/iface/interface/mod.rs, ipv4.rs).
 
+   Link-layer destination (Ethernet): dispatch_ip resolves the hardware address of the packet's
+   next hop before anything else (lookup_hardware_addr); the packet it emits itself (whole
+   packet or first fragment) goes to that address, and ONLY on the path that starts a fragment
+   train -- after the "buffer too small" and "fragmenter busy" drops -- is it stored in
+   Ipv4Fragmenter::dst_hardware_addr, from where dispatch_ipv4_frag addresses the later
+   fragments; Fragmenter::reset clears it.  A datagram is therefore a pair (resolved link-layer
+   address, IP payload) and an emitted frame a pair (link-layer destination, packet).
+
    Abstractions: a socket is the queue of IP payloads it will hand to dispatch_ip (UDP, ICMP and
    raw sockets all dequeue one packet per socket_egress pass and keep it when the emit closure
    fails); a received packet that triggers a reply (echo request) is represented by the reply's
@@ -20,11 +28,19 @@
    No proofs in this file. *)
 From SV Require Import Lib.Base Model.Frag4.
 
+(* (link-layer address resolved for the next hop, IP payload) *)
+Definition dgram := (Z * list Z)%type.
+(* (link-layer destination, packet) *)
+Definition frame := (Z * ip4pkt)%type.
+Definition eg_hw_default : Z := 0.   (* EthernetAddress::default() *)
+Definition frame_is_fragment (f : frame) : bool := p_is_fragment (snd f).
+
 Record egress := mkEg {
   eg_fr : fragmenter;
+  eg_hw : Z;                        (* Fragmenter::ipv4.dst_hardware_addr *)
   eg_id : Z;                        (* InterfaceInner::ipv4_id *)
-  eg_socks : list (list (list Z));  (* per socket (handle order): queued IP payloads *)
-  eg_rx : list (list Z)             (* device rx queue: reply payload per pending request *)
+  eg_socks : list (list dgram);     (* per socket (handle order): queued datagrams *)
+  eg_rx : list dgram                (* device rx queue: the reply each pending request triggers *)
 }.
 
 Definition budget := option Z.
@@ -36,59 +52,74 @@ Definition eg_next_id (id : Z) : Z := (id + 1) mod 65536.
 Definition eg_needs_frag (ip_mtu : Z) (payload : list Z) : bool :=
   f4_hdr + zlen payload >? ip_mtu.
 
+(* dispatch_ip with the link-layer side: what it emits goes to the address resolved for this
+   packet; the fragmenter's stored address changes only when a train is started *)
+Definition eg_dispatch_ip (ip_mtu ident : Z) (fr : fragmenter) (hwst : Z) (d : dgram)
+  : fragmenter * Z * list frame * dip_result :=
+  let '(fr', out, r) := f4_dispatch_ip ip_mtu ident fr (snd d) in
+  (fr', match r with DipFragStarted => fst d | _ => hwst end, map (pair (fst d)) out, r).
+
+(* ipv4_egress: reset() (when finished) also clears the stored address; a pending fragment goes
+   to the stored address *)
+Definition eg_ipv4_egress (ip_mtu : Z) (can_tx : bool) (fr : fragmenter) (hwst : Z)
+  : fragmenter * Z * list frame :=
+  let hw1 := if fr_finished fr then eg_hw_default else hwst in
+  let '(fr', out) := f4_ipv4_egress ip_mtu can_tx fr in
+  (fr', hw1, map (pair hw1) out).
+
 (* socket_ingress for the packets of the rx queue, as long as the device hands out tokens *)
-Fixpoint eg_ingress (ip_mtu : Z) (fr : fragmenter) (id : Z) (b : budget) (rx : list (list Z))
-  : fragmenter * Z * budget * list (list Z) * list ip4pkt :=
+Fixpoint eg_ingress (ip_mtu : Z) (fr : fragmenter) (hwst id : Z) (b : budget) (rx : list dgram)
+  : fragmenter * Z * Z * budget * list dgram * list frame :=
   match rx with
-  | [] => (fr, id, b, [], [])
+  | [] => (fr, hwst, id, b, [], [])
   | reply :: rest =>
       if bud_has b then
-        let '(fr1, out, _) := f4_dispatch_ip ip_mtu id fr reply in
+        let '(fr1, hw1, out, _) := eg_dispatch_ip ip_mtu id fr hwst reply in
         let b1 := match out with [] => b | _ => bud_dec b end in
-        let '(fr2, id2, b2, rx2, out2) := eg_ingress ip_mtu fr1 (eg_next_id id) b1 rest in
-        (fr2, id2, b2, rx2, out ++ out2)
-      else (fr, id, b, rx, [])
+        let '(fr2, hw2, id2, b2, rx2, out2) := eg_ingress ip_mtu fr1 hw1 (eg_next_id id) b1 rest in
+        (fr2, hw2, id2, b2, rx2, out ++ out2)
+      else (fr, hwst, id, b, rx, [])
   end.
 
 (* socket_egress: returns also whether any socket was served (PollResult::SocketStateChanged) *)
-Fixpoint eg_socket_egress (ip_mtu : Z) (fr : fragmenter) (id : Z) (b : budget)
-         (socks : list (list (list Z)))
-  : fragmenter * Z * budget * list (list (list Z)) * list ip4pkt * bool :=
+Fixpoint eg_socket_egress (ip_mtu : Z) (fr : fragmenter) (hwst id : Z) (b : budget)
+         (socks : list (list dgram))
+  : fragmenter * Z * Z * budget * list (list dgram) * list frame * bool :=
   match socks with
-  | [] => (fr, id, b, [], [], false)
+  | [] => (fr, hwst, id, b, [], [], false)
   | q :: rest =>
       match q with
       | [] =>
-          let '(fr2, id2, b2, rest2, out2, ch) := eg_socket_egress ip_mtu fr id b rest in
-          (fr2, id2, b2, q :: rest2, out2, ch)
-      | payload :: q' =>
-          if eg_needs_frag ip_mtu payload && negb (fr_finished fr) then
+          let '(fr2, hw2, id2, b2, rest2, out2, ch) := eg_socket_egress ip_mtu fr hwst id b rest in
+          (fr2, hw2, id2, b2, q :: rest2, out2, ch)
+      | d :: q' =>
+          if eg_needs_frag ip_mtu (snd d) && negb (fr_finished fr) then
             (* FragmenterBusy: the packet stays in the socket, next socket *)
-            let '(fr2, id2, b2, rest2, out2, ch) := eg_socket_egress ip_mtu fr id b rest in
-            (fr2, id2, b2, q :: rest2, out2, ch)
+            let '(fr2, hw2, id2, b2, rest2, out2, ch) := eg_socket_egress ip_mtu fr hwst id b rest in
+            (fr2, hw2, id2, b2, q :: rest2, out2, ch)
           else if negb (bud_has b) then
             (* Exhausted: break *)
-            (fr, id, b, socks, [], false)
+            (fr, hwst, id, b, socks, [], false)
           else
-            let '(fr1, out, _) := f4_dispatch_ip ip_mtu id fr payload in
+            let '(fr1, hw1, out, _) := eg_dispatch_ip ip_mtu id fr hwst d in
             let b1 := match out with [] => b | _ => bud_dec b end in
-            let '(fr2, id2, b2, rest2, out2, _) :=
-              eg_socket_egress ip_mtu fr1 (eg_next_id id) b1 rest in
-            (fr2, id2, b2, q' :: rest2, out ++ out2, true)
+            let '(fr2, hw2, id2, b2, rest2, out2, _) :=
+              eg_socket_egress ip_mtu fr1 hw1 (eg_next_id id) b1 rest in
+            (fr2, hw2, id2, b2, q' :: rest2, out ++ out2, true)
       end
   end.
 
 (* one poll_egress pass *)
 Definition eg_poll_egress (ip_mtu : Z) (st : egress) (b : budget)
-  : egress * budget * list ip4pkt * bool :=
-  let '(fr1, out1) := f4_ipv4_egress ip_mtu (bud_has b) (eg_fr st) in
+  : egress * budget * list frame * bool :=
+  let '(fr1, hw1, out1) := eg_ipv4_egress ip_mtu (bud_has b) (eg_fr st) (eg_hw st) in
   let b1 := match out1 with [] => b | _ => bud_dec b end in
-  let '(fr2, id2, b2, socks2, out2, ch) :=
-    eg_socket_egress ip_mtu fr1 (eg_id st) b1 (eg_socks st) in
-  (mkEg fr2 id2 socks2 (eg_rx st), b2, out1 ++ out2, ch).
+  let '(fr2, hw2, id2, b2, socks2, out2, ch) :=
+    eg_socket_egress ip_mtu fr1 hw1 (eg_id st) b1 (eg_socks st) in
+  (mkEg fr2 hw2 id2 socks2 (eg_rx st), b2, out1 ++ out2, ch).
 
 Fixpoint eg_egress_loop (fuel : nat) (ip_mtu : Z) (st : egress) (b : budget)
-  : egress * budget * list ip4pkt :=
+  : egress * budget * list frame :=
   match fuel with
   | O => (st, b, [])
   | S k =>
@@ -98,38 +129,39 @@ Fixpoint eg_egress_loop (fuel : nat) (ip_mtu : Z) (st : egress) (b : budget)
       else (st1, b1, out1)
   end.
 
-Definition eg_queued (socks : list (list (list Z))) : nat :=
+Definition eg_queued (socks : list (list dgram)) : nat :=
   fold_right (fun q acc => (length q + acc)%nat) O socks.
 
 (* Interface::poll with the device accepting [b] frames.  Every pass that reports a change
    dequeued a packet, so 1 + (number of queued packets) passes suffice. *)
-Definition eg_poll (ip_mtu : Z) (st : egress) (b : budget) : egress * list ip4pkt :=
-  let '(fr1, id1, b1, rx1, out1) := eg_ingress ip_mtu (eg_fr st) (eg_id st) b (eg_rx st) in
-  let st1 := mkEg fr1 id1 (eg_socks st) rx1 in
+Definition eg_poll (ip_mtu : Z) (st : egress) (b : budget) : egress * list frame :=
+  let '(fr1, hw1, id1, b1, rx1, out1) :=
+    eg_ingress ip_mtu (eg_fr st) (eg_hw st) (eg_id st) b (eg_rx st) in
+  let st1 := mkEg fr1 hw1 id1 (eg_socks st) rx1 in
   let '(st2, _, out2) := eg_egress_loop (S (eg_queued (eg_socks st))) ip_mtu st1 b1 in
   (st2, out1 ++ out2).
 
 (* ---- operations, for the correspondence driver and the trace theorems ---- *)
 Inductive eg_op :=
-| ESend (sock : nat) (payload : list Z)   (* application queues a datagram on a socket *)
-| ERecv (reply : list Z)                  (* a request arrives in the device rx queue *)
+| ESend (sock : nat) (d : dgram)   (* application queues a datagram on a socket *)
+| ERecv (reply : dgram)            (* a request arrives in the device rx queue *)
 | EPoll (b : budget).
 
-Fixpoint eg_enqueue (socks : list (list (list Z))) (i : nat) (payload : list Z) :=
+Fixpoint eg_enqueue (socks : list (list dgram)) (i : nat) (d : dgram) :=
   match socks, i with
   | [], _ => []
-  | q :: rest, O => (q ++ [payload]) :: rest
-  | q :: rest, S j => q :: eg_enqueue rest j payload
+  | q :: rest, O => (q ++ [d]) :: rest
+  | q :: rest, S j => q :: eg_enqueue rest j d
   end.
 
-Definition eg_step (ip_mtu : Z) (st : egress) (op : eg_op) : egress * list ip4pkt :=
+Definition eg_step (ip_mtu : Z) (st : egress) (op : eg_op) : egress * list frame :=
   match op with
-  | ESend i payload => (mkEg (eg_fr st) (eg_id st) (eg_enqueue (eg_socks st) i payload) (eg_rx st), [])
-  | ERecv reply => (mkEg (eg_fr st) (eg_id st) (eg_socks st) (eg_rx st ++ [reply]), [])
+  | ESend i d => (mkEg (eg_fr st) (eg_hw st) (eg_id st) (eg_enqueue (eg_socks st) i d) (eg_rx st), [])
+  | ERecv reply => (mkEg (eg_fr st) (eg_hw st) (eg_id st) (eg_socks st) (eg_rx st ++ [reply]), [])
   | EPoll b => eg_poll ip_mtu st b
   end.
 
-Fixpoint eg_run (ip_mtu : Z) (st : egress) (ops : list eg_op) : egress * list ip4pkt :=
+Fixpoint eg_run (ip_mtu : Z) (st : egress) (ops : list eg_op) : egress * list frame :=
   match ops with
   | [] => (st, [])
   | op :: rest =>
@@ -139,4 +171,4 @@ Fixpoint eg_run (ip_mtu : Z) (st : egress) (ops : list eg_op) : egress * list ip
   end.
 
 Definition eg_init (bufsize id0 : Z) (nsocks : nat) : egress :=
-  mkEg (fr_new bufsize) id0 (repeat [] nsocks) [].
+  mkEg (fr_new bufsize) eg_hw_default id0 (repeat [] nsocks) [].
